@@ -838,6 +838,64 @@ theorem model_meets_spec {T : Table} {s s' : State} {op : Op} (hg : OpGoodS T op
           simp only [step, hu, hc, if_true] at h; cases h; rfl
       | _ => simp_all [Op.isX, Op.kind]
 
+/-! ## every public uxarray call that returns a `UxDataArray` -/
+
+/-- **Every public call of the table keeps the invariant** (for every value of its kind-selecting
+    keywords, every table, every state): remap × {nodes, edge centers, face centers}, the ten
+    aggregations × destination, gradient, difference, integrate, isel × dimension, the three subset
+    accessors × element, the cross-section, get_dual (of a mesh whose nodes all have ≥ 3 faces). -/
+theorem uxcall_preserves_inv {T : Table} {s s' : State} (c : UxCall) (hs : Scoped c.op = true)
+    (hi : Inv s) (h : step T s c.op = some s') : Inv s' :=
+  step_preserves_inv ⟨hs, fun k hk => by cases c <;> cases hk⟩ hi h
+
+/-- … hence so does a public call followed by ANY program of in-scope operations built through
+    re-attaching paths -/
+theorem uxcall_then_program_inv {T : Table} {s s' : State} (c : UxCall) (p : List Op)
+    (hs : Scoped c.op = true) (hp : ∀ op ∈ p, OpGood T op) (hi : Inv s)
+    (h : run T s (c.op :: p) = some s') : Inv s' :=
+  program_inv (c.op :: p) s s'
+    (fun op ho => by
+      rcases List.mem_cons.mp ho with rfl | ho
+      · exact ⟨hs, fun k hk => by cases c <;> cases hk⟩
+      · exact hp op ho) hi h
+
+/-- **remap names the element dimension after `remap_to`'s kind and gives it the DESTINATION grid's count
+    of that kind**, and attaches the destination grid: "edge centers" ↦ `(n_edge, dest.n_edge)`, never a
+    dimension named for another kind. -/
+theorem remap_result_dim {T : Table} {s s' : State} {g2 : Nat} {to : Elem}
+    (h : step T s (UxCall.remapNN g2 to).op = some s') :
+    ∃ r2, s.heap[g2]? = some r2 ∧ s'.arr.grid = some g2 ∧
+      s'.arr.dims.getLast? = some (to.dim, r2.counts.get to.dim) ∧
+      s'.arr.dims.dropLast = s.arr.dims.dropLast := by
+  simp only [UxCall.op, step] at h
+  split at h
+  · rename_i x r r2 d hc h2 hcd
+    split at h
+    · cases h
+      exact ⟨r2, h2, rfl, by simp [setLast], by simp [setLast]⟩
+    · cases h
+  · cases h
+
+/-- the same for the aggregations: the result's element dimension is the DESTINATION kind's, same grid -/
+theorem topo_result_dim {T : Table} {s s' : State} {a : Agg} {dest : Elem}
+    (h : step T s (UxCall.topo a dest).op = some s') :
+    ∃ g r, cur s = some (g, r) ∧ s'.arr.grid = some g ∧
+      s'.arr.dims.getLast? = some (dest.dim, r.counts.get dest.dim) := by
+  simp only [UxCall.op, step] at h
+  split at h
+  · rename_i g r hc
+    split at h
+    · cases h
+      exact ⟨g, r, hc, rfl, by simp [setLast]⟩
+    · cases h
+  · cases h
+
+/-- a result whose element dimension is named for one kind but has another kind's count (what a
+    mis-keyed `remap_to` table produces) violates the step specification whenever the two counts differ -/
+theorem mislabelled_remap_violates_spec :
+    specB w0c (UxCall.remapNN 1 .edge).op ⟨w0c.heap, ⟨true, some 1, [(.other 0, 3), (.face, 17)]⟩⟩ [] = false := by
+  decide
+
 /-! ## grid-`isel` is by name: it commutes with transposition -/
 
 theorem centred_perm {ds nd : Dims} (hp : nd.Perm ds) : centred nd = centred ds := by
@@ -1043,6 +1101,8 @@ example : ∃ s', step asIs w0 (.copy true true) = some s' ∧ specB w0 (.copy t
 example : ∃ s', step asIs w0 (.getDual true ⟨0, 0, 0⟩) = some s' ∧ Inv s' :=
   ⟨_, rfl, attachedB_iff.mp (by decide)⟩
 example : ∀ k, ((fun _ => Path.replace : Table) k).good = true := fun _ => rfl
+example : (run asIs w0 [(UxCall.remapIDW 1 .edge).op, .elem .arith, .reduce [.other 0]]).map (·.arr) =
+    some ⟨true, some 1, [(.edge, 17)]⟩ := by decide
 example : ∃ s', step asIs w0 (Op.ofCopy .data true) = some s' ∧ s'.arr.grid = some 2 ∧
     specB w0 (Op.ofCopy .data true) s' w0.arr.dims = true := ⟨_, rfl, rfl, by decide⟩
 example : ∃ s', run asIs w0 [.elem .arith, .transpose [(.face, 6), (.other 0, 3)], Op.ofCopy .deepTrueData true]
